@@ -1,4 +1,11 @@
-"""C01: accounting and the two views (Sched/InvAcct.v, Props/C01.v) on E-cell histories."""
+"""C01: accounting and the two views (Sched/InvAcct.v, Props/C01.v).
+
+Stage 1: E-cell histories (model correspondence + oracle on the scheduler objects).
+Stage 2 (Loader level): the real master.Master/Loader over the in-memory backend (E-master histories: server records
+changed/reloaded/deleted, presence flips, restarts); after every master cycle the C01 statement is evaluated on the
+real cell. Stage 2 is oracle-only (the Loader is not in the scheduler model) and exists for the failing-input search."""
+import random
+
 from .. import core
 from . import _ecell_prop as E
 
@@ -6,11 +13,81 @@ PID = 'C01'
 PROFILE = {'pressure': 0.7, 'failure': 0.5, 'raw_remove': 0.15}
 
 
+def _cell_violations(w, where):
+    out = []
+    cell = w.m.cell
+    members = cell.members()
+    seen = {}
+    for sname, srv in members.items():
+        tot = [0.0] * len(srv.init_capacity)
+        for aname, app in srv.apps.items():
+            if aname in seen:
+                out.append(('instance-on-two-servers', '%s: %s is listed on %s and %s' % (where, aname, seen[aname], sname)))
+            seen[aname] = sname
+            tot = [t + d for t, d in zip(tot, app.demand)]
+            if app.server != sname:
+                out.append(('views-disagree', '%s: server %s lists %s whose own server is %r' % (where, sname, aname, app.server)))
+        if any(t > c for t, c in zip(tot, srv.init_capacity)):
+            out.append(('oversubscribed', '%s: server %s summed demand %r exceeds capacity %r'
+                        % (where, sname, tot, list(srv.init_capacity))))
+        if any(abs((c - t) - f) > 1e-9 for c, t, f in zip(srv.init_capacity, tot, srv.free_capacity)):
+            out.append(('free-capacity-wrong', '%s: server %s free %r != capacity %r - demand %r'
+                        % (where, sname, list(srv.free_capacity), list(srv.init_capacity), tot)))
+    for aname, app in cell.apps.items():
+        if app.server:
+            if app.server not in members:
+                out.append(('placed-on-missing-server', '%s: %s is placed on %r which is not in the cell' % (where, aname, app.server)))
+            elif aname not in members[app.server].apps:
+                out.append(('views-disagree', '%s: %s says server %s which does not list it' % (where, aname, app.server)))
+    return out
+
+
+def loader_stage(r, seed, n):
+    from .. import emaster
+    rng = random.Random(seed + 7)
+    cycles = 0
+    hits_total = 0
+    for i in range(n):
+        case = emaster.gen_case(rng, profile='c09')
+        hits = []
+
+        def hook(w, where, hits=hits):
+            hits.extend(_cell_violations(w, where))
+        try:
+            res = emaster.run_history(case, crash_points=False, want=(), cell_hook=hook)
+            cycles += res.get('stats', {}).get('cycles', 0) if isinstance(res, dict) else 0
+        except Exception as exc:   # noqa
+            r.broken_obligation('correspondence', 'C01 loader stage could not drive the master: %s: %s'
+                                % (type(exc).__name__, str(exc)[:200]))
+            break
+        seen = set()
+        for sig, what in hits:
+            if sig in seen:
+                continue
+            seen.add(sig)
+            hits_total += 1
+            r.violation(sig, what, {'engine': 'E-master', 'case': case})
+    return {'loader_stage': {'histories': n, 'master_cycles': cycles, 'violations': hits_total}}
+
+
 def run(tier, seed):
     spec = E.make_spec(PID, PROFILE, 'C01 profile: capacity pressure (demands that fit one dimension but not another), '
-                       'servers removed with and without their instances, re-added, resized by replacement')
+                       'servers removed with and without their instances, re-added, resized by replacement; plus a '
+                       'Loader-level stage: E-master histories on the real Master, C01 oracle on its cell after every cycle')
+    inner = spec['extra']
+
+    def extra(r, cases, obs):
+        cov = inner(r, cases, obs)
+        cov.update(loader_stage(r, seed, 60 if tier == 'quick' else 3000))
+        return cov
+    spec['extra'] = extra
     core.standard_run(PID, tier, seed, spec)
 
 
 def replay_case(case):
+    if isinstance(case, dict) and case.get('engine') == 'E-master':
+        from .. import emaster
+        hits = []
+        emaster.run_history(case['case'], crash_points=False, want=(), cell_hook=lambda w, where: hits.extend(_cell_violations(w, where)))
+        return hits[0] if hits else None
     return E.replay(PID, case)
